@@ -908,7 +908,10 @@ impl IndexManager {
     pub fn iter_entries(&self) -> impl Iterator<Item = (u8, IndexEntry)> + '_ {
         self.indices.iter().flat_map(|(&bucket, index)| {
             // Build merged view: start with sorted entries, apply updates
+            #[cfg(not(kani))]
             let mut merged: BTreeMap<[u8; 9], Option<IndexEntry>> = BTreeMap::new();
+            #[cfg(kani)]
+            let mut merged: SmallSortedMap<[u8; 9], Option<IndexEntry>> = SmallSortedMap::new();
 
             for entry in &index.entries {
                 merged.insert(entry.key, Some(entry.clone()));
@@ -1079,7 +1082,10 @@ impl IndexManager {
         }
 
         // Collect and deduplicate updates (latest entry wins via BTreeMap insert)
+        #[cfg(not(kani))]
         let mut updates: BTreeMap<[u8; 9], UpdateEntry> = BTreeMap::new();
+        #[cfg(kani)]
+        let mut updates: SmallSortedMap<[u8; 9], UpdateEntry> = SmallSortedMap::new();
         for entry in index.update_section.all_entries() {
             updates.insert(entry.ekey, entry.clone());
         }
@@ -1187,6 +1193,86 @@ impl IndexManager {
     /// Get all loaded bucket IDs
     pub fn loaded_buckets(&self) -> Vec<u8> {
         self.indices.keys().copied().collect()
+    }
+}
+
+/// Verification scale model of the key-ordered scratch maps in `flush_updates_for_bucket` and
+/// `iter_entries` (compiled only by the Kani model checker): the `BTreeMap` API subset used
+/// there (insert = replace on equal key, ascending iteration, `into_values`, `len`) over an inline
+/// array of at most 4 distinct keys; a fifth distinct key panics. No heap nodes, so the model
+/// checker sees the contents.
+#[cfg(kani)]
+struct SmallSortedMap<K, V> {
+    len: usize,
+    slots: [Option<(K, V)>; 4],
+}
+
+#[cfg(kani)]
+#[allow(dead_code)]
+impl<K: Ord, V> SmallSortedMap<K, V> {
+    const fn new() -> Self {
+        Self {
+            len: 0,
+            slots: [const { None }; 4],
+        }
+    }
+
+    fn len(&self) -> usize {
+        self.len
+    }
+
+    fn insert(&mut self, key: K, value: V) -> Option<V> {
+        // first position whose key is not smaller
+        let mut pos = 0;
+        while pos < self.len {
+            match &self.slots[pos] {
+                Some((k, _)) if *k < key => pos += 1,
+                _ => break,
+            }
+        }
+        if pos < self.len {
+            if let Some((k, v)) = &mut self.slots[pos] {
+                if *k == key {
+                    return Some(std::mem::replace(v, value));
+                }
+            }
+        }
+        assert!(self.len < 4, "scale model: four distinct keys");
+        let mut i = self.len;
+        while i > pos {
+            self.slots[i] = self.slots[i - 1].take();
+            i -= 1;
+        }
+        self.slots[pos] = Some((key, value));
+        self.len += 1;
+        None
+    }
+
+    fn iter(&self) -> impl Iterator<Item = (&K, &V)> + '_ {
+        self.slots.iter().flatten().map(|(k, v)| (k, v))
+    }
+
+    fn into_values(self) -> impl Iterator<Item = V> {
+        self.slots.into_iter().flatten().map(|(_, v)| v)
+    }
+}
+
+#[cfg(kani)]
+impl<'a, K: Ord, V> IntoIterator for &'a SmallSortedMap<K, V> {
+    type Item = (&'a K, &'a V);
+    type IntoIter = std::iter::Map<
+        std::iter::Flatten<std::slice::Iter<'a, Option<(K, V)>>>,
+        fn(&'a (K, V)) -> (&'a K, &'a V),
+    >;
+
+    fn into_iter(self) -> Self::IntoIter {
+        fn split<K, V>(e: &(K, V)) -> (&K, &V) {
+            (&e.0, &e.1)
+        }
+        self.slots
+            .iter()
+            .flatten()
+            .map(split::<K, V> as fn(&'a (K, V)) -> (&'a K, &'a V))
     }
 }
 
